@@ -103,6 +103,9 @@ func runC04Virtual(c *c04Case) *c04Obs {
 	var cwg sync.WaitGroup
 	col.consume(ctx, "c2s", sc, c.Consumer, func(ctx context.Context, mux *lime.EnvelopeMux) error { return mux.ListenServer(ctx, sc) }, &cwg)
 	col.consume(ctx, "s2c", cc, c.Consumer, func(ctx context.Context, mux *lime.EnvelopeMux) error { return mux.ListenClient(ctx, cc) }, &cwg)
+	if c.IdleMs > 0 {
+		time.Sleep(time.Duration(c.IdleMs) * time.Millisecond)
+	}
 	c04Drive(c, cc, sc, col, obs, 10*time.Minute)
 	synctest.Wait() // everything that can be delivered has been ...
 	if c.SlowEvery > 0 {
@@ -199,7 +202,13 @@ func genC04(rt *rapid.T, transports []string) *c04Case {
 			c.S2C = c.S2C[:1]
 		}
 	}
-	if c.SlowEvery == 0 && len(c.C2S) > 0 && rapid.IntRange(0, 2).Draw(rt, "pcNoise") == 0 {
+	if !c.Real && rapid.IntRange(0, 2).Draw(rt, "idle") == 0 {
+		c.IdleMs = rapid.SampledFrom([]int{6000, 21000, 31000, 120000}).Draw(rt, "idleMs")
+	}
+	c.NoDeadline = rapid.IntRange(0, 2).Draw(rt, "noDeadline") == 0
+	// (not under TLS: the noise cancels the contexts of its calls, and a TLS write that is given up ends the connection -
+	// the session would not "stay established", which is what this property presupposes)
+	if c.SlowEvery == 0 && c.Transport != "tcp-tls" && len(c.C2S) > 0 && rapid.IntRange(0, 2).Draw(rt, "pcNoise") == 0 {
 		n := rapid.IntRange(1, 40).Draw(rt, "pcN")
 		for i := 0; i < n; i++ {
 			c.PC = append(c.PC, rapid.IntRange(0, 30).Draw(rt, "pcYields"))
